@@ -117,6 +117,23 @@ def tensor_harness(fn, kind, ndim, ndmin):
     return h
 
 
+def asarray_defaults_harness(kind):
+    """asarray(a) with every option left at its default must be np.asarray(a) with NumPy's own defaults (dtype=None, order=None:
+    keep the layout, never copy an array that already has the dtype)"""
+
+    def h(ctx: Ctx):
+        cfg, interp, T, rec = setup(ctx)
+        d = Data(z3.Int("x_dtype"), 2)
+        x = SObj(T, dict(_constant=z3.Bool("c"), data=d), label="x") if kind == "tensor" else Opaque("array-like")
+        f = interp.global_lookup(interp.module(TB), "asarray")
+        interp.call(f, [x], {})
+        meta = dict(function=f"{TB}:asarray", input=kind)
+        ok = len(rec["np"]) == 1 and rec["np"][0][0] is (d if kind == "tensor" else x) and rec["np"][0][1] is None and rec["np"][0][2] is None and not rec["np"][0][3]
+        ctx.oblige(f"C17.asarray[{kind}].defaults_are_numpys_defaults", ok, got=repr(rec["np"][0][1:3]) if rec["np"] else None, **meta)
+
+    return h
+
+
 def asarray_harness(kind):
     def h(ctx: Ctx):
         cfg, interp, T, rec = setup(ctx)
@@ -149,6 +166,7 @@ def obligations(tier="quick"):
                 hs.append((f"tensor[{kind},{ndim},{ndmin}]", tensor_harness("tensor", kind, ndim, ndmin)))
             hs.append((f"astensor[{kind},{ndim}]", tensor_harness("astensor", kind, ndim, 0)))
         hs.append((f"asarray[{kind}]", asarray_harness(kind)))
+        hs.append((f"asarray-defaults[{kind}]", asarray_defaults_harness(kind)))
     for name, h in hs:
         results = explore(h)
         k = 0
